@@ -197,9 +197,109 @@ pub struct DecCase {
     pub garbage: Vec<u8>,
     /// IS_MSO only: the TextStart byte (anywhere: inside the text, behind its terminator, beyond the message)
     pub textstart: u8,
+    /// when non-empty: arbitrary NUL-free bytes before the terminator (codepage markers, double-byte characters, a dangling lead
+    /// byte right before the NUL) instead of `prefix`; the oracle is then metamorphic (see check)
+    pub raw_prefix: Vec<u8>,
+}
+
+/// does the string that this `{:?}` rendering stands for contain U+0000? (an escaped backslash followed by '0' does not count)
+fn debug_string_holds_nul(dbg: &str) -> bool {
+    let mut it = dbg.chars().peekable();
+    while let Some(c) = it.next() {
+        if c == '\0' {
+            return true;
+        }
+        if c != '\\' {
+            continue;
+        }
+        match it.next() {
+            Some('0') => return true,
+            Some('u') => {
+                let hexdigits: String = it.by_ref().skip_while(|c| *c == '{').take_while(|c| *c != '}').collect();
+                if u32::from_str_radix(&hexdigits, 16) == Ok(0) {
+                    return true;
+                }
+            },
+            _ => {},
+        }
+    }
+    false
 }
 
 pub struct DecodeSide;
+impl DecodeSide {
+    /// Arbitrary bytes before the terminator: what follows the first NUL must not influence the decoded text, and the text
+    /// holds no NUL. (frame A: prefix, NUL, garbage; frame B: prefix, NUL, zeros - both must decode to the same field)
+    fn check_raw(&self, c: &DecCase, ev: &mut Local) -> Result<(), Fail> {
+        let (variant, path) = build::TEXT_FIELDS[c.field];
+        let name = field_name(c.field);
+        let mode = if c.compressed { Mode::Compressed } else { Mode::Uncompressed };
+        let (off, shape) = locate(variant, path);
+        let p = spec().packet(variant).unwrap();
+        let base = {
+            let t = image::targets(p);
+            match t.iter().find(|(path, _)| path.contains("[0]")) {
+                Some((path, _)) => image::one_hot(p, &mode, Some((path, 0))).image,
+                None => image::one_hot(p, &mode, None).image,
+            }
+        };
+        let build_frame = |tail: &dyn Fn(usize) -> u8| -> (Vec<u8>, Vec<u8>) {
+            let mut frame = base.clone();
+            let mut content: Vec<u8> = c.raw_prefix.iter().map(|b| if *b == 0 { 0x81 } else { *b }).collect();
+            let cap = match shape {
+                Shape::Fixed { n, .. } => n,
+                Shape::Var { max, .. } => max,
+            };
+            content.truncate(cap.saturating_sub(2));
+            content.push(0);
+            for i in 0..c.garbage.len() {
+                content.push(tail(i));
+            }
+            match shape {
+                Shape::Fixed { n, .. } => {
+                    content.truncate(n);
+                    // the rest of the field keeps the base frame's zeros in both variants
+                    frame[off..off + content.len()].copy_from_slice(&content);
+                },
+                Shape::Var { max, .. } => {
+                    content.truncate(max);
+                    while content.len() % 4 != 0 {
+                        content.push(0);
+                    }
+                    frame.truncate(off);
+                    frame.extend_from_slice(&content);
+                    frame[0] = match mode {
+                        Mode::Compressed => (frame.len() / 4) as u8,
+                        Mode::Uncompressed => frame.len() as u8,
+                    };
+                    if variant == "Mso" {
+                        frame[off - 1] = 0;
+                    }
+                },
+            }
+            (frame, content)
+        };
+        let (fa, ca) = build_frame(&|i| if c.garbage[i] == 0 { 1 } else { c.garbage[i] });
+        let (fb, _) = build_frame(&|_| 0);
+        let field_of = |frame: &[u8]| -> Result<String, Fail> {
+            let pkt = decode_one(frame, &mode).map_err(|e| Fail::new(format!("c11:frame-rejected:{name}"), format!("{name}: {e}: {}", hex(frame))))?;
+            let tree = dbgtree::parse(&format!("{pkt:?}")).map_err(|e| Fail::new("harness:debug-parse", e))?;
+            Ok(tree.get(path).ok_or_else(|| Fail::new("harness:path-missing", format!("{path} in {pkt:?}")))?.text().to_string())
+        };
+        let (a, b) = (field_of(&fa)?, field_of(&fb)?);
+        ensure!(
+            a == b,
+            format!("c11:decode-does-not-stop-at-nul:{name}"),
+            "{name}: field bytes {} decode to {a}, but with zeros after the first NUL to {b}",
+            hex(&ca)
+        );
+        ensure!(!debug_string_holds_nul(&a), format!("c11:decode-does-not-stop-at-nul:{name}"), "{name}: field bytes {} decode to {a}, which holds a NUL", hex(&ca));
+        ev.nontrivial(&(c.field, &c.raw_prefix, &c.garbage));
+        ev.class(&name);
+        ev.class("arbitrary-bytes-before-the-terminator");
+        Ok(())
+    }
+}
 impl Part for DecodeSide {
     type Case = DecCase;
     fn name(&self) -> &'static str {
@@ -218,6 +318,9 @@ impl Part for DecodeSide {
                 None => image::one_hot(p, &mode, None).image,
             }
         };
+        if !c.raw_prefix.is_empty() {
+            return self.check_raw(c, ev);
+        }
         let mut frame = base.clone();
         let mut content = c.prefix.as_bytes().to_vec();
         content.push(0);
@@ -277,12 +380,12 @@ impl Part for DecodeSide {
         Ok(())
     }
     fn to_json(&self, c: &DecCase) -> Value {
-        json!({"field": field_name(c.field), "compressed": c.compressed, "prefix": c.prefix, "garbage": hex(&c.garbage), "textstart": c.textstart})
+        json!({"field": field_name(c.field), "compressed": c.compressed, "prefix": c.prefix, "garbage": hex(&c.garbage), "textstart": c.textstart, "raw_prefix": hex(&c.raw_prefix)})
     }
     fn from_json(&self, v: &Value) -> Option<DecCase> {
         let f = v.get("field")?.as_str()?;
         let idx = (0..build::TEXT_FIELDS.len()).find(|i| field_name(*i) == f)?;
-        Some(DecCase { field: idx, compressed: v.get("compressed")?.as_bool()?, prefix: v.get("prefix")?.as_str()?.to_string(), garbage: unhex(v.get("garbage")?.as_str()?)?, textstart: v.get("textstart").and_then(|t| t.as_u64()).unwrap_or(0) as u8 })
+        Some(DecCase { field: idx, compressed: v.get("compressed")?.as_bool()?, prefix: v.get("prefix")?.as_str()?.to_string(), garbage: unhex(v.get("garbage")?.as_str()?)?, textstart: v.get("textstart").and_then(|t| t.as_u64()).unwrap_or(0) as u8, raw_prefix: v.get("raw_prefix").and_then(|t| t.as_str()).and_then(unhex).unwrap_or_default() })
     }
 }
 
@@ -357,12 +460,31 @@ pub fn run(run: &mut Run) {
     let n = run.budget(150_000, 8_000_000);
     run.prop(&EncodeSide, strat, n);
     // (3) decode side
-    let strat = (0..build::TEXT_FIELDS.len(), any::<bool>(), "[ -~]{0,20}".prop_map(|s: String| s.replace('^', "x")), proptest::collection::vec(any::<u8>(), 0..40), prop_oneof![Just(0u8), 0u8..70, any::<u8>()]).prop_map(|(field, compressed, prefix, garbage, textstart)| DecCase { field, compressed, prefix, garbage, textstart });
+    let strat = (0..build::TEXT_FIELDS.len(), any::<bool>(), "[ -~]{0,20}".prop_map(|s: String| s.replace('^', "x")), proptest::collection::vec(any::<u8>(), 0..40), prop_oneof![Just(0u8), 0u8..70, any::<u8>()]).prop_map(|(field, compressed, prefix, garbage, textstart)| DecCase { field, compressed, prefix, garbage, textstart, raw_prefix: vec![] });
     // the MSO field is one of 30: give it its own share, TextStart anywhere
     let mso = build::TEXT_FIELDS.iter().position(|(v, _)| *v == "Mso").expect("Mso.msg is a text field");
-    let mso_strat = (any::<bool>(), "[ -~]{0,20}".prop_map(|s: String| s.replace('^', "x")), proptest::collection::vec(any::<u8>(), 0..40), 0u8..80).prop_map(move |(compressed, prefix, garbage, textstart)| DecCase { field: mso, compressed, prefix, garbage, textstart });
+    let mso_strat = (any::<bool>(), "[ -~]{0,20}".prop_map(|s: String| s.replace('^', "x")), proptest::collection::vec(any::<u8>(), 0..40), 0u8..80).prop_map(move |(compressed, prefix, garbage, textstart)| DecCase { field: mso, compressed, prefix, garbage, textstart, raw_prefix: vec![] });
     let n = run.budget(20_000, 1_000_000);
     run.prop(&DecodeSide, mso_strat, n);
+    // arbitrary bytes before the terminator: codepage markers, double-byte pairs, lone high bytes, and - often - a dangling lead
+    // byte as the very last byte before the NUL
+    let seg = prop_oneof![
+        3 => proptest::collection::vec(0x20u8..0x7F, 1..5),
+        2 => (0usize..12).prop_map(|k| vec![b'^', b"LGCETBJHSK8^"[k]]),
+        3 => (0x81u8..0xFF, 0x40u8..0xFF).prop_map(|(a, b)| vec![a, b]),
+        1 => (0x80u8..=0xFF).prop_map(|a| vec![a]),
+    ];
+    let raw = (0..build::TEXT_FIELDS.len(), any::<bool>(), proptest::collection::vec(seg, 1..10), prop_oneof![1 => Just(None), 2 => (0x81u8..0xFF).prop_map(Some)], proptest::collection::vec(any::<u8>(), 1..40)).prop_map(
+        |(field, compressed, segs, dangling, garbage)| {
+            let mut raw_prefix: Vec<u8> = segs.into_iter().flatten().collect();
+            if let Some(d) = dangling {
+                raw_prefix.push(d);
+            }
+            DecCase { field, compressed, prefix: String::new(), garbage, textstart: 0, raw_prefix }
+        },
+    );
+    let n = run.budget(60_000, 2_000_000);
+    run.prop(&DecodeSide, raw, n);
     let n = run.budget(60_000, 2_000_000);
     run.prop(&DecodeSide, strat, n);
 }
